@@ -87,6 +87,27 @@ class FuncAnalysis:
                         and st_.targets[0].id in pnames_ and st_.targets[0].id not in self.rebound:
                     self.rebound[st_.targets[0].id] = (st_.targets[0].lineno, st_.targets[0].col_offset,
                                                        st_.end_lineno or st_.lineno, st_.end_col_offset or 0)
+        # `x = TABLE[k]` ... `if x is None: x = [TABLE[k] =] make(); x.fill()`: inside the `if`, after the assignment, `x` is the
+        # object just made, not what the table held (that was None) -- the one other place where the position of a use decides.
+        # name -> [(target line, target col, from (line, col), to (line, col))]; such a binding also reaches the plain name, which is
+        # what the code after the `if` sees.
+        self.none_rebound: Dict[str, List[Tuple[int, int, Tuple[int, int], Tuple[int, int]]]] = {}
+        if not fi.is_module_body:
+            for n in ast.walk(fi.node):
+                if isinstance(n, ast.If) and isinstance(n.test, ast.Compare) and len(n.test.ops) == 1 and isinstance(n.test.ops[0], ast.Is) \
+                        and isinstance(n.test.left, ast.Name) and isinstance(n.test.comparators[0], ast.Constant) and n.test.comparators[0].value is None:
+                    nm_ = n.test.left.id
+                    for st_ in n.body:
+                        if isinstance(st_, ast.Assign) and any(isinstance(t, ast.Name) and t.id == nm_ for t in st_.targets) \
+                                and not any(isinstance(x, ast.Name) and x.id == nm_ for x in ast.walk(st_.value)):
+                            tg = next(t for t in st_.targets if isinstance(t, ast.Name) and t.id == nm_)
+                            last = n.body[-1]
+                            self.none_rebound.setdefault(nm_, []).append(
+                                (tg.lineno, tg.col_offset, (st_.end_lineno or st_.lineno, st_.end_col_offset or 0),
+                                 (last.end_lineno or last.lineno, (last.end_col_offset or 0) + 1)))
+                            break
+                        if any(isinstance(x, ast.Name) and x.id == nm_ and isinstance(x.ctx, ast.Store) for x in ast.walk(st_)):
+                            break
         if not fi.is_module_body:
             for n in ast.walk(fi.node):
                 if isinstance(n, ast.Global):
@@ -320,6 +341,10 @@ class FuncAnalysis:
         return isinstance(x, ast.Name) and x.id not in self.locals and x.id != "self"
 
     def _key(self, e: ast.Name) -> str:
+        for tl_, tc_, frm_, to_ in self.none_rebound.get(e.id, ()):
+            pos_ = (getattr(e, "lineno", 0), getattr(e, "col_offset", 0))
+            if pos_ == (tl_, tc_) or frm_ <= pos_ < to_:
+                return f"{e.id}#made@{tl_}"
         rb = self.rebound.get(e.id)
         if rb is None:
             return e.id
@@ -360,7 +385,10 @@ class FuncAnalysis:
         if isinstance(t, ast.Name):
             if t.id in self.globals_declared or self.fi.is_module_body:
                 return
-            self.add(self.pts.setdefault(self._key(t), set()), vals)
+            k_ = self._key(t)
+            self.add(self.pts.setdefault(k_, set()), vals)
+            if "#made@" in k_:
+                self.add(self.pts.setdefault(t.id, set()), vals)       # what the code after the `if` sees
         elif isinstance(t, (ast.Tuple, ast.List)):
             inner = vals | self.deref(vals, 1)
             for x in t.elts:
